@@ -2,6 +2,7 @@
 package bad
 
 import (
+	"fmt"
 	"reflect"
 	"strings"
 )
@@ -61,3 +62,47 @@ func same(x, y reflect.Value) bool {
 }
 
 func isNil(v reflect.Value) bool { return !v.IsValid() }
+
+// AsFloat recognises two of the twelve numeric kinds: an int64 is "not a number".
+func AsFloat(v interface{}) (float64, bool) {
+	switch n := v.(type) {
+	case float64:
+		return n, true
+	case int:
+		return float64(n), true
+	}
+	return 0, false
+}
+
+type term struct {
+	desc bool
+	name string
+}
+
+// Terms keeps the direction of the previous term for a term that has no marker of its own.
+func Terms(words []string) []term {
+	var out []term
+	desc := false
+	for _, w := range words {
+		if strings.HasPrefix(w, ">") {
+			desc = true
+			w = w[1:]
+		} else if strings.HasPrefix(w, "<") {
+			desc = false
+			w = w[1:]
+		}
+		out = append(out, term{desc: desc, name: w})
+	}
+	return out
+}
+
+// Render returns before it has looked at the zone when there is no picture.
+func Render(ms int64, picture, zone string) (string, error) {
+	if picture == "" {
+		return strings.Repeat("0", int(ms%3)), nil
+	}
+	if zone != "" && len(zone) != 5 {
+		return "", fmt.Errorf("bad zone")
+	}
+	return picture + zone + strings.Repeat("0", int(ms%3)), nil
+}
